@@ -47,6 +47,18 @@ CHECKS = {
             "compared after every step; random histories and every character class in first/middle/last position at boundary lengths are validated by the trace spec.",
             "Trusted: registries restored from a snapshot between histories; naming rules frozen in the spec (double hyphens lenient). Custom types are fed to the round-trip/versioning pipelines by C01/C05.",
             "DESIGN.md §3.11"),
+    "C07": ("markings", "TLA+ set-algebra model of granular/object markings; TLC proves the algebraic laws over all states and explores the operation machine; TLC-simulated behaviours replayed on real objects; trace validation of random histories",
+            "TLC checks the laws (add reported/idempotent/commutative, remove restores, clear leaves others, set = clear;add, queries agree, ancestry by path steps) as theorems over every G,O "
+            "of the model universe and the version discipline on the state machine. Simulated behaviours (mutators and queries with all flag combinations) are replayed through functions and "
+            "methods on SDO/SRO objects of both versions and dicts realising the hazard selectors, and random histories on every SDO/SRO type are validated line by line.",
+            "Trusted: projection of granular_markings to pairs; 'no change' outcomes (object returned / MarkingNotFoundError) are not distinguished; multi-marking is_marked not generated.",
+            "DESIGN.md §3.4"),
+    "C08": ("markings", "TLA+ path enumeration over JSON trees; TLC enumerates every path and near miss of real maximal instances; each candidate replayed through construction, parse and every marking function; trace validation",
+            "Selectors.tla defines what a selector addresses independent of stored values; TLC checks it on a hazard tree and computes, for a maximal instance of every versionable type of both "
+            "versions plus observables with extensions and a 2.0 container, the complete candidate list (all paths, all near misses) with verdicts; every candidate goes through constructor, "
+            "parse, add/set/clear/remove/get/is_marked and the observed verdict is validated by the trace spec.",
+            "Trusted: object-to-tree projection (harness/impl_markings.py); selector steps outside the syntax character set carry no obligation.",
+            "DESIGN.md §3.4"),
 }
 
 NOT_YET = {}
